@@ -48,6 +48,28 @@ theorem merged_levels_valid (ps : List (KGRange × Ckpt)) (hok : ∀ p ∈ ps, C
     (hl : (mergeLevels (ps.map (·.2)))[i]? = some l) : LevelValid l :=
   mergeLevels_valid ps hok hdis i hi l hl
 
+/-- **level 0 of the composite** (what `merged_levels_valid` does not cover, because level 0 is not a sorted level):
+level 0 of the merged checkpoint is exactly the handles' level-0 lists appended in handle order — never re-ordered —
+so every handle's tables stay one contiguous block in their stored order, which is their age order (flushes
+append), and the newest-first lookup `l0Get` visits them newest first. -/
+theorem merged_level0_keeps_age_order (cs : List Ckpt) (n : Nat) (hn : 1 ≤ n) (hne : cs ≠ [])
+    (hnl : ∀ c ∈ cs, c.levels.length = n) :
+    (mergeLevels cs)[0]? = some (concatLevel cs 0) ∧
+    ∀ (x y : List Ckpt) (c : Ckpt), cs = x ++ c :: y →
+      concatLevel cs 0 = concatLevel x 0 ++ (c.levels.getD 0 [] ++ concatLevel y 0) := by
+  refine ⟨mergeLevels_level0 cs n hn hne hnl, ?_⟩
+  intro x y c h
+  rw [h, concatLevel_split]
+
+/-- what level 0 must satisfy for reads: insertion order = age order *per source* is enough, because different
+sources hold disjoint key groups — the composite's newest-first level-0 lookup of a key equals the lookup in the
+level 0 of the key's old owner alone, wherever the other handles' tables are placed. -/
+theorem level0_lookup_per_source (n : Nat) (pre post : List (KGRange × Ckpt)) (rj : KGRange) (cj : Ckpt)
+    (hpre : ∀ p ∈ pre, OldOk n p ∧ p.1.overlaps rj = false) (hpost : ∀ p ∈ post, OldOk n p ∧ p.1.overlaps rj = false)
+    (k : Bytes) (hlen : 2 ≤ k.length) (hk : rj.includes (kgOf k) = true) :
+    l0Get (concatLevel ((pre ++ (rj, cj) :: post).map (·.2)) 0) k = l0Get (cj.levels.getD 0 []) k :=
+  restore_level0 n pre post rj cj hpre hpost k hlen hk
+
 /-- **seq_above_loaded**: after `Open`, for any handles and ownership, the instance's sequence number is at least
 every sequence number in every loaded table, everything replayed from the WALs is numbered above all of them and
 is owned (nothing foreign is replayed), and so is every later write. -/
@@ -176,6 +198,22 @@ example :
   · exact (h1 [0, 1, 98] (by decide) (by decide) (by decide)).trans (by decide)
   · exact (h2 [0, 200, 97] (by decide) (by decide) (by decide)).trans (by decide)
   · exact (h2 [0, 200, 98] (by decide) (by decide) (by decide)).trans (by decide)
+
+/-- level-0 age order matters: the old instance holds two level-0 tables, the newer one starts at a smaller key and
+overwrites `[0,32,109]`; the restore from two handles answers with the newer version (an implementation that sorted
+level 0 by start key would visit the older table first) -/
+def exL0 : Ckpt := ⟨[[⟨0, [⟨[0, 32, 109], 1, false, [1]⟩, ⟨[0, 112, 122], 2, false, [7]⟩]⟩,
+                      ⟨1, [⟨[0, 16, 97], 3, false, [3]⟩, ⟨[0, 32, 109], 4, false, [4]⟩]⟩], []], []⟩
+def exL0b : Ckpt := ⟨[[⟨0, [⟨[0, 144, 113], 1, false, [5]⟩]⟩], []], []⟩
+
+example :
+    (l0Get (concatLevel [exL0b, exL0] 0) [0, 32, 109]).map (·.val) = some [4] ∧
+    (l0Get (concatLevel [exL0, exL0b] 0) [0, 32, 109]).map (·.val) = some [4] ∧
+    -- the same three tables in start-key order (newer table first, so visited last): the overwritten version
+    (l0Get [⟨1, [⟨[0, 16, 97], 3, false, [3]⟩, ⟨[0, 32, 109], 4, false, [4]⟩]⟩,
+            ⟨0, [⟨[0, 32, 109], 1, false, [1]⟩, ⟨[0, 112, 122], 2, false, [7]⟩]⟩,
+            ⟨0, [⟨[0, 144, 113], 1, false, [5]⟩]⟩] [0, 32, 109]).map (·.val) = some [1] := by
+  decide
 
 /-- regression witness D8: with the handles in descending key order the unsorted deeper level hid the first table -/
 theorem d8_counterexample :
